@@ -8,21 +8,15 @@
                     `radialPeriodicOutcome`), tied to the code by the exhaustive correspondence
                     `harness/c16.py`.
 
-  Where the code AS IT IS deviates from the documentation, the full statement is kept as a
-  `def …_statement : Prop`, refuted (`…_counterexample`), the equality is proved on all
-  non-deviating entries (`…_partial`) and the list of deviating entries is proved exact
-  (`…_deviations_exact`).  Deviations found (candidate defects of the repo):
+  After the repairs of the repo (`fix:` commits on mesh.py, face.py, cell.py, pdesolver.py) the
+  label, constructor-arity, term, boundary-coefficient and radial-periodic tables equal the
+  documented ones and the full statements are theorems.  Constructor calls with the right number
+  of arguments of the wrong types (`ErrSpec.ctorTypeConfusion`) are outside the arity property:
+  the model says what happens, the spec comparison excludes them (they never construct a mesh).
 
-    * component labels: `FaceVariable.thetavalue/.phivalue` on SphericalGrid1D raise
-      NotImplementedError (get and set); `FaceVariable.rvalue = …` is accepted on Grid1D/2D/3D;
-    * constructor arity: see `ErrSpec.ctorDeviations` (IndexError / ValueError /
-      UnboundLocalError / AttributeError instead of TypeError; six scalars accepted by the 1-D
-      and 2-D classes);
-    * initial-value shape: numpy broadcasting in the comparison lets a rank-1 shape `[n]`
-      (or `[n+2]`) through for a mesh whose extents all equal `n`, and any shape whose entries all
-      equal `n` (or `n+2`) for a 1-D mesh of `n` cells;
-    * term kinds: a 3-tuple raises ValueError, Python scalars / strings / lists / None raise
-      AttributeError.
+  Likewise excluded (`ErrSpec.shapeOutOfScope`): a size-1 initial value of rank above the mesh rank
+  on a single-cell 2-D/3-D mesh, which the code happens to accept; on every other mesh such a value
+  raises ValueError as documented (it fits neither the grid nor the grid with ghosts).
 -/
 import PyFV.Gen.Errors
 import PyFV.Model.BC
@@ -63,108 +57,46 @@ theorem own_label_count : ∀ k ∈ allKinds, (ownCoords k).length = k.dim := by
 
 /-! ## Vector-component labels of `FaceVariable` -/
 
-/-- FULL statement (false for the code as it is) -/
-def compGet_eq_spec_statement : Prop :=
-  ∀ k ∈ allKinds, ∀ l ∈ allCompLabels, Gen.compLabelGet k l = specComp k l
+/-- reading: generated table = documented table, all 9 classes × 6 labels -/
+theorem compGet_eq_spec :
+    ∀ k ∈ allKinds, ∀ l ∈ allCompLabels, Gen.compLabelGet k l = specComp k l := by decide
 
-def compSet_eq_spec_statement : Prop :=
-  ∀ k ∈ allKinds, ∀ l ∈ allCompLabels, Gen.compLabelSet k l = specCompSet k l
-
-/-- `FaceVariable(SphericalGrid1D).thetavalue` raises NotImplementedError, not AttributeError -/
-theorem compGet_eq_spec_counterexample : ¬ compGet_eq_spec_statement := by
-  intro h
-  exact absurd (h .sph1 (by decide) "thetavalue" (by decide)) (by decide)
-
-/-- `FaceVariable(Grid1D).rvalue = v` replaces `_xvalue` instead of raising AttributeError -/
-theorem compSet_eq_spec_counterexample : ¬ compSet_eq_spec_statement := by
-  intro h
-  exact absurd (h .cart1 (by decide) "rvalue" (by decide)) (by decide)
-
-theorem compGet_eq_spec_partial :
-    ∀ k ∈ allKinds, ∀ l ∈ allCompLabels, (k, l) ∉ compGetDeviations →
-      Gen.compLabelGet k l = specComp k l := by decide
-
-theorem compSet_eq_spec_partial :
-    ∀ k ∈ allKinds, ∀ l ∈ allCompLabels, (k, l) ∉ compSetDeviations →
-      Gen.compLabelSet k l = specCompSet k l := by decide
-
-/-- the deviation lists are exact -/
-theorem compGet_deviations_exact :
-    ∀ k ∈ allKinds, ∀ l ∈ allCompLabels,
-      ((k, l) ∈ compGetDeviations ↔ Gen.compLabelGet k l ≠ specComp k l) := by decide
-
-theorem compSet_deviations_exact :
-    ∀ k ∈ allKinds, ∀ l ∈ allCompLabels,
-      ((k, l) ∈ compSetDeviations ↔ Gen.compLabelSet k l ≠ specCompSet k l) := by decide
-
-/-- what the deviating entries do -/
-theorem compGet_deviation_values :
-    compGetDeviations.map (fun p => Gen.compLabelGet p.1 p.2) = [.notImplemented, .notImplemented] := by
-  decide
-
-theorem compSet_deviation_values :
-    compSetDeviations.map (fun p => Gen.compLabelSet p.1 p.2)
-      = [.notImplemented, .notImplemented, .ok .x, .ok .x, .ok .x] := by
-  decide
+/-- writing -/
+theorem compSet_eq_spec :
+    ∀ k ∈ allKinds, ∀ l ∈ allCompLabels, Gen.compLabelSet k l = specCompSet k l := by decide
 
 /-- every documented component label is accepted on every class, reading and writing, and
-    addresses the internal array of its axis (this direction has no deviation) -/
+    addresses the internal array of its axis -/
 theorem own_comp_accepted :
     ∀ k ∈ allKinds, ∀ p ∈ ownComps k,
       Gen.compLabelGet k p.1 = .ok p.2 ∧ Gen.compLabelSet k p.1 = .ok p.2 := by decide
 
-/-- reading a foreign component label never returns an array (it raises — with the wrong class
-    on SphericalGrid1D) -/
-theorem foreign_comp_get_raises :
+/-- a component label foreign to the grid's coordinate system raises AttributeError,
+    reading and writing alike -/
+theorem foreign_comp_raises :
     ∀ k ∈ allKinds, ∀ l ∈ allCompLabels, (ownComps k).lookup l = none →
-      Gen.compLabelGet k l = .attrError ∨ Gen.compLabelGet k l = .notImplemented := by decide
+      Gen.compLabelGet k l = .attrError ∧ Gen.compLabelSet k l = .attrError := by decide
 
-/-- … whereas writing one is silently accepted in exactly three entries -/
-theorem foreign_comp_set_accepted_iff :
-    ∀ k ∈ allKinds, ∀ l ∈ allCompLabels, (ownComps k).lookup l = none →
-      ((Gen.compLabelSet k l).isOk = true ↔ (k.radial = false ∧ l = "rvalue")) := by decide
+/-- no entry of the four generated tables falls through to NotImplementedError or `other` -/
+theorem label_tables_closed :
+    ∀ k ∈ allKinds,
+      (∀ l ∈ allCoordLabels, (Gen.coordLabelGet k l).isOk = true ∨ Gen.coordLabelGet k l = .attrError) ∧
+      (∀ l ∈ allCompLabels,
+        ((Gen.compLabelGet k l).isOk = true ∨ Gen.compLabelGet k l = .attrError) ∧
+        ((Gen.compLabelSet k l).isOk = true ∨ Gen.compLabelSet k l = .attrError)) := by decide
 
 /-! ## Constructor arity -/
 
-/-- FULL statement (false for the code as it is) -/
-def ctor_eq_spec_statement : Prop :=
-  ∀ k ∈ allKinds, ∀ f ∈ allForms, ctorOutcome k f = specCtor k f
+/-- model = documented behaviour on every form of arities 0..7 that is not a type confusion
+    (right number of arguments of the wrong types, outside the arity property) -/
+theorem ctor_eq_spec :
+    ∀ k ∈ allKinds, ∀ f ∈ allForms, ctorTypeConfusion k f = false →
+      ctorOutcome k f = specCtor k f := by decide
 
-/-- `PolarGrid2D()` raises IndexError -/
-theorem ctor_eq_spec_counterexample : ¬ ctor_eq_spec_statement := by
-  intro h
-  exact absurd (h .pol2 (by decide) (.arrays 0) (by decide)) (by decide)
-
-theorem ctor_eq_spec_partial :
-    ∀ k ∈ allKinds, ∀ f ∈ allForms, (k, f) ∉ ctorDeviations → ctorOutcome k f = specCtor k f := by
-  decide
-
-theorem ctor_deviations_exact :
-    ∀ k ∈ allKinds, ∀ f ∈ allForms,
-      ((k, f) ∈ ctorDeviations ↔ ctorOutcome k f ≠ specCtor k f) := by decide
-
-/-- the Cartesian classes and CylindricalGrid2D/1-D radial classes raise TypeError for every wrong
-    ARITY (n ∉ {dim, 2 dim, 6}); the deviations there are right-arity/wrong-type and `scalars 6` -/
-theorem ctor_wrong_arity_typeError_nonpolar :
-    ∀ k ∈ [Kind.cart1, .cyl1, .sph1, .cart2, .cyl2, .cart3], ∀ n ∈ arities,
-      n ≠ k.dim → n ≠ 2 * k.dim → n ≠ 6 →
-        ctorOutcome k (.arrays n) = .typeError ∧ ctorOutcome k (.scalars n) = .typeError := by
-  decide
-
-/-- what the deviating entries do (same order as `ctorDeviations`) -/
-theorem ctor_deviation_values :
-    ctorDeviations.map (fun p => ctorOutcome p.1 p.2) =
-      [ .attrError, .accept, .attrError, .accept, .attrError, .accept,
-        .attrError, .accept, .attrError, .accept,
-        .indexError, .indexError, .indexError, .valueError, .valueError, .valueError,
-        .indexError, .indexError, .indexError, .accept,
-        .attrError,
-        .indexError, .indexError, .indexError, .indexError, .valueError, .valueError,
-        .indexError, .indexError, .indexError, .indexError,
-        .other "UnboundLocalError", .other "UnboundLocalError", .other "UnboundLocalError",
-        .other "UnboundLocalError", .other "UnboundLocalError", .other "UnboundLocalError",
-        .other "UnboundLocalError", .other "UnboundLocalError", .other "UnboundLocalError",
-        .other "UnboundLocalError", .other "UnboundLocalError", .other "UnboundLocalError" ] := by
+/-- a wrong NUMBER of arguments raises TypeError on every class (6 arrays are the direct init) -/
+theorem ctor_wrong_arity_typeError :
+    ∀ k ∈ allKinds, ∀ n ∈ arities, n ≠ k.dim → n ≠ 2 * k.dim →
+      ctorOutcome k (.scalars n) = .typeError ∧ (n ≠ 6 → ctorOutcome k (.arrays n) = .typeError) := by
   decide
 
 /-- every documented constructor form is accepted on every grid class -/
@@ -173,273 +105,179 @@ theorem ctor_documented_accepted :
       ctorOutcome k (.arrays k.dim) = .accept ∧ ctorOutcome k (.scalars (2 * k.dim)) = .accept
         ∧ ctorOutcome k (.arrays 6) = .accept := by decide
 
-/-- exactly which forms are accepted: the documented ones, and six scalars on 1-D/2-D classes -/
+/-- exactly the documented forms are accepted — over ALL enumerated forms, type confusions included -/
 theorem ctor_accept_iff :
-    ∀ k ∈ allKinds, ∀ f ∈ allForms,
-      (ctorOutcome k f = .accept ↔ (specCtor k f = .accept ∨ (k.dim ≤ 2 ∧ f = .scalars 6))) := by
+    ∀ k ∈ allKinds, ∀ f ∈ allForms, (ctorOutcome k f = .accept ↔ specCtor k f = .accept) := by
   decide
 
-/-! ## Initial-value shape (a real ∀ over all lists) -/
+/-- the type confusions are exactly `dim` scalars and (1-D, 2-D) `2·dim` arrays -/
+theorem ctor_type_confusion_iff :
+    ∀ k ∈ allKinds, ∀ f ∈ allForms,
+      (ctorTypeConfusion k f = true ↔
+        (f = .scalars k.dim ∨ (k.dim ≤ 2 ∧ f = .arrays (2 * k.dim)))) := by decide
 
-/-- the cascade only ever accepts or raises ValueError -/
+/-- what they do: never a mesh; AttributeError (`.size` of a number), TypeError (numpy refuses an
+    array as a count; a number is not subscriptable) or ValueError (truth value of an array) -/
+theorem ctor_type_confusion_values :
+    (allKinds.map fun k => (ctorOutcome k (.scalars k.dim), ctorOutcome k (.arrays (2 * k.dim)))) =
+      [ (.attrError, .typeError), (.attrError, .typeError), (.attrError, .typeError),
+        (.attrError, .typeError), (.attrError, .typeError), (.typeError, .valueError),
+        (.attrError, .accept), (.typeError, .accept), (.typeError, .accept) ] := by decide
+
+/-! ## Initial-value shape (real ∀ over all lists, all ranks) -/
+
+/-- only two outcomes -/
 theorem shape_outcome_cases (dims shape : List ℕ) :
     shapeOutcome dims shape = .accept ∨ shapeOutcome dims shape = .valueError := by
-  unfold shapeOutcome
+  unfold shapeOutcome size1Downstream
   split
-  · exact Or.inl rfl
   · split
-    · exact Or.inr rfl
+    · exact Or.inl rfl
+    · split
+      · exact Or.inl rfl
+      · exact Or.inr rfl
+  · split
     · exact Or.inl rfl
     · split
       · exact Or.inl rfl
       · exact Or.inr rfl
 
-/-- for matching rank the cascade accepts exactly the documented shapes -/
+/-- ALL RANKS: the mesh shape, the mesh shape with ghost cells, and single values of rank at most
+    the mesh rank (scalars included) are accepted -/
+theorem shape_documented_accepted (dims shape : List ℕ)
+    (h : shape = dims ∨ shape = dims.map (· + 2) ∨ (shape.prod = 1 ∧ shape.length ≤ dims.length)) :
+    shapeOutcome dims shape = .accept := by
+  unfold shapeOutcome
+  by_cases hp : shape.prod = 1
+  · rw [if_pos hp]
+    have hl : shape.length ≤ dims.length := by
+      rcases h with h | h | h
+      · rw [h]
+      · rw [h, List.length_map]
+      · exact h.2
+    rw [if_pos hl]
+  · rw [if_neg hp]
+    rcases h with h | h | h
+    · rw [if_pos h]
+    · by_cases h1 : shape = dims
+      · rw [if_pos h1]
+      · rw [if_neg h1, if_pos h]
+    · exact absurd h.1 hp
+
+example : shapeOutcome [2, 3] [2, 3] = .accept ∧ shapeOutcome [2, 3] [4, 5] = .accept
+    ∧ shapeOutcome [2, 3] [1, 1] = .accept ∧ shapeOutcome [2, 3] [1] = .accept
+    ∧ shapeOutcome [2, 3] [] = .accept := by decide
+
+/-- ALL RANKS: an initial array that fits neither the grid nor the grid with ghost cells and is
+    not scalar-like raises ValueError (single-cell 2-D/3-D meshes with a size-1 value of too high
+    a rank excepted, see `shape_out_of_scope_accepted`) -/
+theorem shape_reject_valueError (dims shape : List ℕ)
+    (h : ¬ (shape = dims ∨ shape = dims.map (· + 2) ∨ (shape.prod = 1 ∧ shape.length ≤ dims.length)))
+    (hs : shapeOutOfScope dims shape = false) :
+    shapeOutcome dims shape = .valueError := by
+  have h1 : ¬ shape = dims := fun e => h (Or.inl e)
+  have h2 : ¬ shape = dims.map (· + 2) := fun e => h (Or.inr (Or.inl e))
+  unfold shapeOutcome
+  by_cases hp : shape.prod = 1
+  · have hl : ¬ shape.length ≤ dims.length := fun e => h (Or.inr (Or.inr ⟨hp, e⟩))
+    rw [if_pos hp, if_neg hl]
+    unfold size1Downstream
+    by_cases hc : 2 ≤ dims.length ∧ dims.all (· == 1) = true
+    · exfalso
+      have : shapeOutOfScope dims shape = true := by
+        unfold shapeOutOfScope
+        rw [Bool.and_eq_true]
+        exact ⟨decide_eq_true ⟨hp, by omega, hc.1⟩, hc.2⟩
+      rw [this] at hs
+      exact absurd hs (by decide)
+    · rw [if_neg hc]
+  · rw [if_neg hp, if_neg h1, if_neg h2]
+
+example : shapeOutcome [3, 3] [3] = .valueError ∧ shapeOutcome [3] [5, 5] = .valueError
+    ∧ shapeOutcome [2, 3] [3, 2] = .valueError ∧ shapeOutcome [3] [1, 1] = .valueError
+    ∧ shapeOutcome [1] [1, 1] = .valueError ∧ shapeOutcome [1, 2] [1, 1, 1] = .valueError := by decide
+
+/-- for matching rank: accepted ⇔ shape = dims ∨ shape = dims+2 ∨ a single value -/
 theorem shape_accept_iff (dims shape : List ℕ) (h : shape.length = dims.length) :
     shapeOutcome dims shape = .accept ↔
       (shape = dims ∨ shape = dims.map (· + 2) ∨ shape.prod = 1) := by
-  have e1 : bcastAllEq shape dims = some (decide (shape = dims)) := by
-    simp [bcastAllEq, h]
-  have e2 : bcastAllEq shape (dims.map (· + 2)) = some (decide (shape = dims.map (· + 2))) := by
-    simp [bcastAllEq, h]
-  unfold shapeOutcome
-  rw [e1, e2]
-  by_cases hp : shape.prod = 1
-  · simp only [if_pos hp, true_iff]; exact Or.inr (Or.inr hp)
-  · by_cases h1 : shape = dims
-    · simp only [if_neg hp, decide_eq_true h1, true_iff]; exact Or.inl h1
-    · by_cases h2 : shape = dims.map (· + 2)
-      · simp only [if_neg hp, decide_eq_false h1, decide_eq_true h2, true_iff]
-        exact Or.inr (Or.inl h2)
-      · simp only [if_neg hp, decide_eq_false h1, decide_eq_false h2]
-        constructor
-        · intro e; exact absurd e (by decide)
-        · rintro (e | e | e)
-          · exact absurd e h1
-          · exact absurd e h2
-          · exact absurd e hp
+  have hs : shapeOutOfScope dims shape = false := by
+    unfold shapeOutOfScope
+    rw [Bool.and_eq_false_iff]
+    exact Or.inl (decide_eq_false (fun ⟨_, hl, _⟩ => by omega))
+  constructor
+  · intro e
+    by_contra hn
+    have hn' : ¬ (shape = dims ∨ shape = dims.map (· + 2) ∨ (shape.prod = 1 ∧ shape.length ≤ dims.length)) := by
+      rintro (e | e | e)
+      · exact hn (Or.inl e)
+      · exact hn (Or.inr (Or.inl e))
+      · exact hn (Or.inr (Or.inr e.1))
+    rw [shape_reject_valueError dims shape hn' hs] at e
+    exact absurd e (by decide)
+  · rintro (e | e | e)
+    · exact shape_documented_accepted dims shape (Or.inl e)
+    · exact shape_documented_accepted dims shape (Or.inr (Or.inl e))
+    · exact shape_documented_accepted dims shape (Or.inr (Or.inr ⟨e, h.le⟩))
 
-example : shapeOutcome [2, 3] [4, 5] = .accept := by decide
-
-/-- … hence model = spec for matching rank -/
-theorem shape_eq_spec_same_rank (dims shape : List ℕ) (h : shape.length = dims.length) :
+/-- ALL RANKS, ALL SHAPES: model = documented behaviour (outside the one excluded configuration) -/
+theorem shape_eq_spec (dims shape : List ℕ) (hs : shapeOutOfScope dims shape = false) :
     shapeOutcome dims shape = specShape dims shape := by
-  by_cases hs : shape = dims ∨ shape = dims.map (· + 2) ∨ shape.prod = 1
-  · rw [(shape_accept_iff dims shape h).2 hs, specShape, if_pos hs]
-  · rw [specShape, if_neg hs]
-    rcases shape_outcome_cases dims shape with e | e
-    · exact absurd ((shape_accept_iff dims shape h).1 e) hs
-    · exact e
+  by_cases h : shape = dims ∨ shape = dims.map (· + 2) ∨ (shape.prod = 1 ∧ shape.length ≤ dims.length)
+  · rw [specShape, if_pos h]
+    exact shape_documented_accepted dims shape h
+  · rw [specShape, if_neg h]
+    exact shape_reject_valueError dims shape h hs
 
-/-- every documented shape passes, whatever the rank -/
-theorem shape_documented_accepted (dims shape : List ℕ)
-    (h : shape = dims ∨ shape = dims.map (· + 2) ∨ shape.prod = 1) :
-    shapeOutcome dims shape = .accept := by
-  rcases h with h | h | h
-  · exact (shape_accept_iff dims shape (by rw [h])).2 (Or.inl h)
-  · exact (shape_accept_iff dims shape (by rw [h, List.length_map])).2 (Or.inr (Or.inl h))
-  · unfold shapeOutcome; rw [if_pos h]
+example : shapeOutOfScope [3] [1, 1] = false ∧ shapeOutOfScope [2, 3] [1, 1, 1] = false
+    ∧ shapeOutOfScope [1, 1] [1, 1] = false ∧ shapeOutOfScope [1] [1, 1] = false := by decide
 
-example : shapeOutcome [2, 3] [2, 3] = .accept ∧ shapeOutcome [2, 3] [1, 1] = .accept
-    ∧ shapeOutcome [2, 3] [] = .accept ∧ shapeOutcome [2, 3] [3, 2] = .valueError := by decide
+/-- every mesh with more than one cell, and every 1-D mesh, is in scope for every shape -/
+theorem shape_in_scope_of_cell (dims shape : List ℕ)
+    (h : dims.length ≤ 1 ∨ ∃ d ∈ dims, d ≠ 1) : shapeOutOfScope dims shape = false := by
+  unfold shapeOutOfScope
+  rw [Bool.and_eq_false_iff]
+  rcases h with h | ⟨d, hd, hne⟩
+  · exact Or.inl (decide_eq_false (fun ⟨_, _, h2⟩ => by omega))
+  · right
+    rw [List.all_eq_false]
+    exact ⟨d, hd, by simpa using hne⟩
 
-/-- FULL statement over all ranks (false for the code as it is) -/
-def shape_eq_spec_statement : Prop :=
-  ∀ dims shape : List ℕ, dims ≠ [] → shapeOutcome dims shape = specShape dims shape
+/-- honesty about the excluded configuration: there the code accepts the value (spec: ValueError) -/
+theorem shape_out_of_scope_accepted (dims shape : List ℕ) (hs : shapeOutOfScope dims shape = true) :
+    shapeOutcome dims shape = .accept ∧ specShape dims shape = .valueError := by
+  unfold shapeOutOfScope at hs
+  rw [Bool.and_eq_true] at hs
+  obtain ⟨h1, h2⟩ := hs
+  obtain ⟨hp, hl, hd⟩ := of_decide_eq_true h1
+  constructor
+  · unfold shapeOutcome size1Downstream
+    rw [if_pos hp, if_neg (by omega), if_pos ⟨hd, h2⟩]
+  · unfold specShape
+    rw [if_neg]
+    rintro (e | e | e)
+    · rw [e] at hl; omega
+    · rw [e, List.length_map] at hl; omega
+    · omega
 
-/-- a rank-1 array of 2 values passes the shape check of a 2×2 mesh -/
-theorem shape_eq_spec_counterexample : ¬ shape_eq_spec_statement := by
-  intro h
-  exact absurd (h [2, 2] [2] (by decide)) (by decide)
-
-/-- acceptance as a disjunction of the two comparisons -/
-theorem shape_accept_of_cmp (dims shape : List ℕ) (hp : ¬ shape.prod = 1) (b1 b2 : Bool)
-    (e1 : bcastAllEq shape dims = some b1)
-    (e2 : bcastAllEq shape (dims.map (· + 2)) = some b2) :
-    shapeOutcome dims shape = .accept ↔ (b1 = true ∨ b2 = true) := by
-  unfold shapeOutcome
-  rw [if_neg hp, e1, e2]
-  cases b1 <;> cases b2 <;> simp
-
-/-- rank-1 value on a mesh of another rank: numpy broadcasts the single extent against all
-    mesh extents -/
-theorem shape_accept_rank1 (dims shape : List ℕ) (hs : shape.length = 1) (hd : dims.length ≠ 1) :
-    shapeOutcome dims shape = .accept ↔
-      (shape.prod = 1 ∨ (∀ d ∈ dims, d = shape.headD 0) ∨ (∀ d ∈ dims, d + 2 = shape.headD 0)) := by
-  by_cases hp : shape.prod = 1
-  · simp [shapeOutcome, hp]
-  · have hl : ¬ shape.length = dims.length := by omega
-    have e1 : bcastAllEq shape dims = some (dims.all (· == shape.headD 0)) := by
-      unfold bcastAllEq
-      rw [if_neg hl, if_pos hs]
-    have e2 : bcastAllEq shape (dims.map (· + 2))
-        = some ((dims.map (· + 2)).all (· == shape.headD 0)) := by
-      unfold bcastAllEq
-      rw [if_neg (by rw [List.length_map]; exact hl), if_pos hs]
-    rw [shape_accept_of_cmp dims shape hp _ _ e1 e2]
-    simp [hp, List.all_eq_true]
-
-/-- any value on a 1-D mesh: numpy broadcasts the single mesh extent against all value extents -/
-theorem shape_accept_mesh1 (dims shape : List ℕ) (hd : dims.length = 1) (hs : shape.length ≠ 1) :
-    shapeOutcome dims shape = .accept ↔
-      (shape.prod = 1 ∨ (∀ s ∈ shape, s = dims.headD 0) ∨ (∀ s ∈ shape, s = dims.headD 0 + 2)) := by
-  by_cases hp : shape.prod = 1
-  · simp [shapeOutcome, hp]
-  · have hl : ¬ shape.length = dims.length := by omega
-    obtain ⟨n, rfl⟩ : ∃ n, dims = [n] := by
-      match dims, hd with
-      | [n], _ => exact ⟨n, rfl⟩
-    have e1 : bcastAllEq shape [n] = some (shape.all (· == n)) := by
-      unfold bcastAllEq
-      rw [if_neg (show ¬ shape.length = [n].length from hs), if_neg hs,
-        if_pos (show [n].length = 1 from rfl)]
-      rfl
-    have e2 : bcastAllEq shape ([n].map (· + 2)) = some (shape.all (· == n + 2)) := by
-      show bcastAllEq shape [n + 2] = _
-      unfold bcastAllEq
-      rw [if_neg (show ¬ shape.length = [n + 2].length from hs), if_neg hs,
-        if_pos (show [n + 2].length = 1 from rfl)]
-      rfl
-    rw [shape_accept_of_cmp [n] shape hp _ _ e1 e2]
-    simp [hp, List.all_eq_true]
-
-/-- any other rank mismatch: the comparison itself fails (ValueError) unless the value has one entry -/
-theorem shape_accept_other_rank (dims shape : List ℕ) (hl : shape.length ≠ dims.length)
-    (hs : shape.length ≠ 1) (hd : dims.length ≠ 1) :
-    shapeOutcome dims shape = .accept ↔ shape.prod = 1 := by
-  by_cases hp : shape.prod = 1
-  · simp [shapeOutcome, hp]
-  · simp [shapeOutcome, bcastAllEq, hp, hl, hs, hd]
-
-example : shapeOutcome [3, 3] [3] = .accept ∧ shapeOutcome [3, 3] [5] = .accept
-    ∧ shapeOutcome [3] [3, 3] = .accept ∧ shapeOutcome [3] [5, 5, 5] = .accept
-    ∧ shapeOutcome [2, 3] [2] = .valueError ∧ shapeOutcome [2, 2, 2] [2, 2] = .valueError := by decide
-
-/-- EXACT characterisation of what the cascade lets through, all ranks: besides the documented
-    shapes, a rank-1 shape `[s]` when all extents (or all extents + 2) equal `s`, and — for a
-    1-D mesh of `n` cells — any shape whose entries all equal `n` (or all equal `n + 2`) -/
-theorem shape_accept_general (dims shape : List ℕ) :
-    shapeOutcome dims shape = .accept ↔
-      (shape.prod = 1 ∨ shape = dims ∨ shape = dims.map (· + 2)
-        ∨ (shape.length = 1 ∧ dims.length ≠ 1 ∧
-            ((∀ d ∈ dims, d = shape.headD 0) ∨ (∀ d ∈ dims, d + 2 = shape.headD 0)))
-        ∨ (dims.length = 1 ∧ shape.length ≠ 1 ∧
-            ((∀ s ∈ shape, s = dims.headD 0) ∨ (∀ s ∈ shape, s = dims.headD 0 + 2)))) := by
-  by_cases hl : shape.length = dims.length
-  · rw [shape_accept_iff dims shape hl]
-    constructor
-    · rintro (h | h | h)
-      · exact Or.inr (Or.inl h)
-      · exact Or.inr (Or.inr (Or.inl h))
-      · exact Or.inl h
-    · rintro (h | h | h | ⟨h1, h2, _⟩ | ⟨h1, h2, _⟩)
-      · exact Or.inr (Or.inr h)
-      · exact Or.inl h
-      · exact Or.inr (Or.inl h)
-      · exact absurd (hl ▸ h1) h2
-      · exact absurd (hl.symm ▸ h1) h2
-  · have n1 : ¬ shape = dims := fun e => hl (by rw [e])
-    have n2 : ¬ shape = dims.map (· + 2) := fun e => hl (by rw [e, List.length_map])
-    by_cases hs : shape.length = 1
-    · have hd : dims.length ≠ 1 := fun e => hl (by omega)
-      rw [shape_accept_rank1 dims shape hs hd]
-      constructor
-      · rintro (h | h)
-        · exact Or.inl h
-        · exact Or.inr (Or.inr (Or.inr (Or.inl ⟨hs, hd, h⟩)))
-      · rintro (h | h | h | ⟨_, _, h⟩ | ⟨h, _, _⟩)
-        · exact Or.inl h
-        · exact absurd h n1
-        · exact absurd h n2
-        · exact Or.inr h
-        · exact absurd h hd
-    · by_cases hd : dims.length = 1
-      · rw [shape_accept_mesh1 dims shape hd hs]
-        constructor
-        · rintro (h | h)
-          · exact Or.inl h
-          · exact Or.inr (Or.inr (Or.inr (Or.inr ⟨hd, hs, h⟩)))
-        · rintro (h | h | h | ⟨h, _, _⟩ | ⟨_, _, h⟩)
-          · exact Or.inl h
-          · exact absurd h n1
-          · exact absurd h n2
-          · exact absurd h hs
-          · exact Or.inr h
-      · rw [shape_accept_other_rank dims shape hl hs hd]
-        constructor
-        · exact Or.inl
-        · rintro (h | h | h | ⟨h, _, _⟩ | ⟨h, _, _⟩)
-          · exact h
-          · exact absurd h n1
-          · exact absurd h n2
-          · exact absurd h hs
-          · exact absurd h hd
-
-/-- the accepted-but-undocumented shapes are exactly the broadcasting cases -/
-theorem shape_deviation_iff (dims shape : List ℕ) :
-    shapeOutcome dims shape ≠ specShape dims shape ↔
-      (shape.prod ≠ 1 ∧ shape ≠ dims ∧ shape ≠ dims.map (· + 2) ∧
-        ((shape.length = 1 ∧ dims.length ≠ 1 ∧
-            ((∀ d ∈ dims, d = shape.headD 0) ∨ (∀ d ∈ dims, d + 2 = shape.headD 0)))
-        ∨ (dims.length = 1 ∧ shape.length ≠ 1 ∧
-            ((∀ s ∈ shape, s = dims.headD 0) ∨ (∀ s ∈ shape, s = dims.headD 0 + 2))))) := by
-  have g := shape_accept_general dims shape
-  by_cases hs : shape = dims ∨ shape = dims.map (· + 2) ∨ shape.prod = 1
-  · have e : shapeOutcome dims shape = .accept := shape_documented_accepted dims shape hs
-    rw [specShape, if_pos hs, e]
-    constructor
-    · intro h; exact absurd rfl h
-    · rintro ⟨h1, h2, h3, _⟩
-      rcases hs with h | h | h
-      · exact absurd h h2
-      · exact absurd h h3
-      · exact absurd h h1
-  · rw [specShape, if_neg hs]
-    have hs' : shape.prod ≠ 1 ∧ shape ≠ dims ∧ shape ≠ dims.map (· + 2) :=
-      ⟨fun h => hs (Or.inr (Or.inr h)), fun h => hs (Or.inl h), fun h => hs (Or.inr (Or.inl h))⟩
-    constructor
-    · intro h
-      have ha : shapeOutcome dims shape = .accept := by
-        rcases shape_outcome_cases dims shape with e | e
-        · exact e
-        · exact absurd e h
-      rcases g.1 ha with h | h | h | h | h
-      · exact absurd h hs'.1
-      · exact absurd h hs'.2.1
-      · exact absurd h hs'.2.2
-      · exact ⟨hs'.1, hs'.2.1, hs'.2.2, Or.inl h⟩
-      · exact ⟨hs'.1, hs'.2.1, hs'.2.2, Or.inr h⟩
-    · rintro ⟨_, _, _, h⟩
-      have ha : shapeOutcome dims shape = .accept :=
-        g.2 (Or.inr (Or.inr (Or.inr h)))
-      rw [ha]; decide
+example : shapeOutOfScope [1, 1] [1, 1, 1] = true ∧ shapeOutcome [1, 1] [1, 1, 1] = .accept := by decide
 
 /-! ## Equation terms of `solvePDE` -/
 
-/-- FULL statement (false for the code as it is) -/
-def term_eq_spec_statement : Prop := ∀ t ∈ allTerms, termOutcome t = specTerm t
-
-/-- `solvePDE(phi, [(M, v, v)])` raises ValueError (tuple unpacking) -/
-theorem term_eq_spec_counterexample : ¬ term_eq_spec_statement := by
-  intro h
-  exact absurd (h .tuple3 (by decide)) (by decide)
-
-theorem term_eq_spec_partial : ∀ t ∈ allTerms, t ∉ termDeviations → termOutcome t = specTerm t := by
-  decide
-
-theorem term_deviations_exact :
-    ∀ t ∈ allTerms, (t ∈ termDeviations ↔ termOutcome t ≠ specTerm t) := by decide
-
-theorem term_deviation_values :
-    termDeviations.map termOutcome = [.valueError, .attrError, .attrError, .attrError, .attrError] := by
-  decide
-
-/-- every documented term kind is accepted, no undocumented one is -/
-theorem term_accept_iff : ∀ t ∈ allTerms, (termOutcome t = .accept ↔ specTerm t = .accept) := by
-  decide
-
 /-- `allTerms` lists every constructor -/
 theorem allTerms_complete (t : TermShape) : t ∈ allTerms := by cases t <;> decide
+
+/-- model = documented behaviour for every term kind -/
+theorem term_eq_spec (t : TermShape) : termOutcome t = specTerm t := by cases t <;> decide
+
+/-- every documented term kind is accepted, every other one raises TypeError -/
+theorem term_accept_iff (t : TermShape) :
+    termOutcome t = .accept ↔ (t = .mat ∨ t = .vec ∨ t = .pair) := by cases t <;> decide
+
+theorem term_unknown_typeError (t : TermShape) (h : ¬ (t = .mat ∨ t = .vec ∨ t = .pair)) :
+    termOutcome t = .typeError := by revert h; cases t <;> decide
+
+example : termOutcome .tuple3 = .typeError ∧ termOutcome .none = .typeError := by decide
 
 /-! ## Boundary coefficients -/
 
